@@ -61,7 +61,11 @@ def run_k(ctx, kres):
     for i in range(n):
         um = UMASKS[i % len(UMASKS)]
         traces.append(Trace("enc%d" % i, gen.enc_history(ctx.seed * 86028121 + i, tables, ops, um), conf_extra="" if um is None else "objectstore.umask = %04o\n" % um))
-    return k_suite(ctx, kres, "K06-storing-paths", traces, in_projection, sig_of=sig_of, direct=direct)
+    v = k_suite(ctx, kres, "K06-storing-paths", traces, in_projection, sig_of=sig_of, direct=direct)
+    # every class x CKA_PRIVATE omitted / false / true (the class default decides what is private), label / id changes, copies made private: directory decoded after each
+    from .. import gen2
+    v += k_suite(ctx, kres, "K06-class-matrix(exhaustive)", [Trace("class-matrix", gen2.c06_class_matrix(tables, ctx.seed))], in_projection, sig_of=sig_of, direct=direct, shrink_budget=60)
+    return v
 
 
 def judge(ctx, results):
